@@ -758,6 +758,9 @@ enum Job {
     /// colours encoded as RGB values in the attribute (incl. RGB black, whose encoding is also the transparent colour) on alpha-only and
     /// opaque stacks, and layers whose default font page differs from the page of their cells
     OptSpecial { variant: usize },
+    /// font tables other than "a font in slot 0": every subset of the slots {0, 2, 5} incl. the empty one, every assignment of an 8x8 /
+    /// 8x16 font to the occupied slots; cells on every one of the three pages (with and without a font behind the page)
+    OptFontTable { variant: usize },
 }
 
 struct Layers {
@@ -801,6 +804,9 @@ fn build(prop: &str, tier: &str) -> Layers {
         }
         for variant in 0..8 {
             jobs.push(Job::OptSpecial { variant });
+        }
+        for variant in 0..64 {
+            jobs.push(Job::OptFontTable { variant });
         }
         let depth = if thorough { 3 } else { 2 };
         let total = (small.len() as u64).pow(depth);
@@ -886,6 +892,36 @@ impl Engine for Layers {
                 check_optimizer(&buf, json!({"cells": "5 foregrounds (RGB black, 2 RGB colours, 7, 0) x bold x 5 backgrounds (7, RGB, RGB black, 0, 1) x glyphs A, 219, 32, 0, 223; last row and column unfilled",
                     "layer_has_alpha": alpha, "second_alpha_layer_beneath": two, "default_font_page_32(8x8)": dfp}), "rgb-colours-and-default-font-page", ctx);
             }
+            Job::OptFontTable { variant } => {
+                let v = *variant;
+                let slots = [0usize, 2, 5];
+                let mut buf = Buffer::new((10, 3));
+                buf.clear_font_table();
+                let mut table = Vec::new();
+                for (i, slot) in slots.iter().enumerate() {
+                    if v >> i & 1 == 1 {
+                        let small = v >> (3 + i) & 1 == 1;
+                        buf.set_font(*slot, icy_engine::BitFont::from_ansi_font_page(if small { 32 } else { 0 }).unwrap());
+                        table.push(json!({"slot": slot, "font": if small { "8x8 (ansi font page 32)" } else { "8x16 (ansi font page 0)" }}));
+                    } else if v >> (3 + i) & 1 == 1 {
+                        return; // the size bit of a free slot has no meaning: one variant per table
+                    }
+                }
+                let glyphs = [b'A' as u32, 219, 32];
+                for (pi, page) in slots.iter().enumerate() {
+                    for (gi, g) in glyphs.iter().enumerate() {
+                        let mut a = TextAttribute::new(14 - pi as u32, 1 + gi as u32);
+                        a.set_font_page(*page);
+                        buf.layers[0].set_char(((pi * 3 + gi) as i32, 0), AttributedChar::new(char::from_u32(*g).unwrap(), a));
+                        let mut a = TextAttribute::new(1 + gi as u32, 4 + pi as u32);
+                        a.set_font_page(slots[(pi + gi) % 3]);
+                        buf.layers[0].set_char(((pi * 3 + gi) as i32, 1), AttributedChar::new(char::from_u32(glyphs[(gi + 1) % 3]).unwrap(), a));
+                    }
+                }
+                buf.layers[0].set_char((1, 2), AttributedChar::new('B', TextAttribute::new(12, 4)));
+                ctx.count("nontrivial", 1);
+                check_optimizer(&buf, json!({"font_table": table, "cells": "rows 0 and 1: glyphs A, 219, 32 on each of the font pages 0, 2, 5 (row 1 with pages and glyphs rotated); row 2: one cell on page 0; last column unfilled"}), "font-table-without-slot-0", ctx);
+            }
             Job::OptStacks { first, count, depth } => {
                 let depth = *depth;
                 for i in *first..*first + *count {
@@ -928,6 +964,7 @@ impl Engine for Layers {
             Job::Rows { page, lo, hi } => json!({"engine": "optimizer-rows", "idx": idx, "font_page": page, "middle_glyphs": [lo, hi], "key": "optimizer-rows"}),
             Job::MixedRows { page } => json!({"engine": "optimizer-mixed-page-rows", "idx": idx, "font_page": page, "key": "optimizer-mixed-page-rows"}),
             Job::OptSpecial { variant } => json!({"engine": "optimizer-special-documents", "idx": idx, "variant": variant, "key": "optimizer-special-documents"}),
+            Job::OptFontTable { variant } => json!({"engine": "optimizer-font-tables", "idx": idx, "variant": variant, "key": "optimizer-font-tables"}),
             Job::OptStacks { first, count, depth } => json!({"engine": "optimizer-stacks", "idx": idx, "first": first, "count": count, "layers": depth, "key": "optimizer-stacks"}),
         }
     }
